@@ -225,6 +225,16 @@ def run(ctx):
         if m.violation:
             raise vlib.Inconclusive("the specification of the repaired protocol violates its own properties (%s):\n%s"
                                     % (cfg, m.violation[:2500]))
+    # lock order (c.mu before j.mu): the design has no cycle in the wait-for graph; a completion
+    # handler that reads cluster state while it holds j.mu has one
+    m = ctx.modelcheck("Resize", "C22_mc_locks_t" if thorough else "C22_mc_locks", files=files, timeout=1500, workers=4)
+    if m.violation:
+        raise vlib.Inconclusive("the lock model of the repaired protocol violates its own properties:\n%s" % m.violation[:2500])
+    m = ctx.modelcheck("Resize", "C22_mc_locks_inv", files=files, timeout=600, workers=2)
+    if not m.violation or "NoLockCycle" not in m.violation:
+        raise vlib.Inconclusive("NoLockCycle is vacuous: the model with the lock-order inversion satisfies it")
+    ctx.notes.append("HandlerReadsState=TRUE (j.mu then c.mu) violates: " + m.violation.splitlines()[0])
+    ctx.tlc_runs[-1][2].violation = None  # expected counterexample
     m = ctx.modelcheck("Resize", "C22_mc_orig", files=files, timeout=600, workers=2)
     if not m.violation:
         raise vlib.Inconclusive("the properties are vacuous: the model of the unrepaired code satisfies them")
@@ -260,6 +270,12 @@ def run(ctx):
            "VERIF_TRACE_MAX": 1500 if thorough else 300}
     ctx.drive(PKG, "TestC22", env=env, label="C22/free", timeout=2400)
     traces.append(("C22/free", tr, {"VERIF_GRAN": "free"}, True))
+    # lock order: a completion handler held under j.mu while ResizeAbort / completeCurrentJob take
+    # c.mu and wait for j.mu (gate:complete), and handler || abort started together
+    tr = os.path.join(ctx.scratch, "trace-race.ndjson")
+    env = {"VERIF_GRAN": "race", "VERIF_N": 400 if thorough else 80, "VERIF_TRACE_OUT": tr, "VERIF_TRACE_MAX": 400}
+    ctx.drive(PKG, "TestC22", env=env, label="C22/race", timeout=2400)
+    traces.append(("C22/race", tr, {"VERIF_GRAN": "race"}, True))
 
     # 3. (B)
     _validate(ctx, traces, plan, impl_sims=300 if thorough else 50)
